@@ -76,6 +76,8 @@ def to_pydict(b, mi, tree):
     out = {}
     for fi in mi.fields:
         if fi.number not in tree:
+            if fi.number % 2 and fi.number in names:
+                out[names[fi.number]] = None  # JSON null: "not set", for every kind of field (never selects a oneof member)
             continue
         v = tree[fi.number]
         if fi.label == "repeated":
